@@ -84,6 +84,7 @@ pub fn replay_case(c: &J) -> Result<(), String> {
     let s = c["input"].as_str().unwrap_or("");
     match c["pipeline"].as_str() {
         Some("LexFold") => check(&f, Pipe::LexFold, s, &expect),
+        Some("LexRoutes") => ops::lexical_routes_agree(&f, s),
         Some("CharsStripped") => check_chars_stripped(&f, s, &expect),
         _ => check(&f, Pipe::Enum, s, &expect),
     }
@@ -165,8 +166,17 @@ pub fn run(run: &Run) {
                 distinct.add(s);
                 for p in [Pipe::Enum, Pipe::LexFold] {
                     run.eval(1);
-                    if let Err(msg) = check(&f, p, s, &expect) {
-                        run.violation(&format!("[{}] {}", f.name, msg), json!({"op": "spacing", "format": f.name, "pipeline": format!("{p:?}"), "input": s, "value": v.to_json()}), &feats);
+                    match check(&f, p, s, &expect) {
+                        Err(msg) => run.violation(&format!("[{}] {}", f.name, msg), json!({"op": "spacing", "format": f.name, "pipeline": format!("{p:?}"), "input": s, "value": v.to_json()}), &feats),
+                        Ok(()) if p == Pipe::LexFold => {
+                            // the other public routes into the lexical parser (free functions, the
+                            // term-only entry) must treat the same spacing the same way
+                            run.eval(1);
+                            if let Err(msg) = ops::lexical_routes_agree(&f, s) {
+                                run.violation(&format!("[{}] {}", f.name, msg), json!({"op": "spacing", "format": f.name, "pipeline": "LexRoutes", "input": s, "value": v.to_json()}), &feats);
+                            }
+                        }
+                        Ok(()) => {}
                     }
                 }
             }
@@ -180,8 +190,13 @@ pub fn run(run: &Run) {
                 let s = emit::join_with(&toks, &all);
                 distinct.add(&s);
                 run.eval(2);
-                if let Err(msg) = check(&f, Pipe::LexFold, &s, &expect) {
-                    run.violation(&format!("[{}] {}", f.name, msg), json!({"op": "spacing", "format": f.name, "pipeline": "LexFold", "input": s, "value": v.to_json()}), &feats);
+                match check(&f, Pipe::LexFold, &s, &expect) {
+                    Err(msg) => run.violation(&format!("[{}] {}", f.name, msg), json!({"op": "spacing", "format": f.name, "pipeline": "LexFold", "input": s, "value": v.to_json()}), &feats),
+                    Ok(()) => {
+                        if let Err(msg) = ops::lexical_routes_agree(&f, &s) {
+                            run.violation(&format!("[{}] {}", f.name, msg), json!({"op": "spacing", "format": f.name, "pipeline": "LexRoutes", "input": s, "value": v.to_json()}), &feats);
+                        }
+                    }
                 }
                 if let Err(msg) = check_chars_stripped(&f, &s, &expect) {
                     run.violation(&format!("[{}] {}", f.name, msg), json!({"op": "spacing", "format": f.name, "pipeline": "CharsStripped", "input": s, "value": v.to_json()}), &feats);
